@@ -437,15 +437,55 @@ func (s *sys) finish() {
 	}
 }
 
+// corpusMotifs: the corpus histories of the model being run (once or memo), used as PREFIXES of a share of the random
+// histories (a random cut of a random corpus history is replayed first, then generation continues at random from the
+// situation it reached): the corner cases that were worth writing down are then also explored in their neighbourhood.
+var corpusMotifs []hist.H
+
+// motifPrefix draws (from the history's own PRNG) whether this random history starts with a corpus prefix, and which.
+func motifPrefix(r *rand.Rand) [][]uint64 {
+	if len(corpusMotifs) > 0 && r.IntN(6) == 0 {
+		m := corpusMotifs[r.IntN(len(corpusMotifs))]
+		if len(m.Evs) > 0 {
+			return m.Evs[:1+r.IntN(len(m.Evs))]
+		}
+	}
+	return nil
+}
+
 func runOnceRandom(t *testing.T, w *hist.W, h int) {
 	r := hist.Rng(h)
 	synctest.Test(t, func(t *testing.T) {
+		prefix := motifPrefix(r)
 		s := newSys(w)
 		defer s.teardown()
 		w.Begin(fmt.Sprintf("r%d", h), nil)
+		var prev []uint64
+		for _, ev0 := range prefix {
+			ev := append([]uint64(nil), ev0...)
+			if len(ev) == 0 {
+				break
+			}
+			obs, ok := s.exec(ev)
+			if !ok {
+				break
+			}
+			s.count(ev, obs, prev)
+			prev = obs
+			w.Step(ev, obs)
+		}
+		if prefix != nil {
+			w.Count("random_with_corpus_prefix", 1)
+		}
 		steps := 8 + r.IntN(50)
 		maxCallers := 2 + r.IntN(9)
-		var prev []uint64
+		if prefix != nil {
+			for _, a := range s.c.Acts {
+				if a.Kind == kCaller {
+					maxCallers++
+				}
+			}
+		}
 		for k := 0; k < steps; k++ {
 			ev := s.gen(r, maxCallers)
 			if ev == nil {
@@ -685,9 +725,28 @@ func runMemo(t *testing.T, w *hist.W, id string, r *rand.Rand, evs [][]uint64) {
 		defer s.teardown()
 		w.Begin(id, nil)
 		if r != nil {
+			prefix := motifPrefix(r)
+			for _, ev0 := range prefix {
+				ev := append([]uint64(nil), ev0...)
+				if len(ev) == 0 {
+					break
+				}
+				obs, ok := s.exec(ev)
+				if !ok {
+					break
+				}
+				s.count(ev, obs)
+				w.Step(ev, obs)
+			}
+			if prefix != nil {
+				w.Count("random_with_corpus_prefix", 1)
+			}
 			steps := 3 + r.IntN(14)
 			maxCallers := 2 + r.IntN(9)
 			pReturn := 5 + r.IntN(40)
+			if prefix != nil {
+				maxCallers += len(s.c.Acts)
+			}
 			for k := 0; k < steps; k++ {
 				ev := s.gen(r, maxCallers, pReturn)
 				if ev == nil {
@@ -741,7 +800,8 @@ func run(t *testing.T, model string) {
 		}
 		return
 	}
-	for _, h := range hist.LoadCorpus(*hist.Corpus) {
+	corpusMotifs = hist.LoadCorpus(*hist.Corpus)
+	for _, h := range corpusMotifs {
 		fixed(h)
 		w.Count("corpus", 1)
 	}
